@@ -66,11 +66,14 @@ PROPS = {
         'units': ['listops', 'lists'],
         'functions': ['s_linked_list.rs::count_terms', 's_linked_list.rs::filter', 's_linked_list.rs::pass_filter',
                       's_linked_list.rs::get_terms', 's_linked_list.rs::get_list_data',
-                      'built_in_count.rs::bip_count', 'built_in_filter.rs::bip_include', 'built_in_filter.rs::bip_exclude'],
+                      'built_in_count.rs::bip_count', 'built_in_filter.rs::bip_include', 'built_in_filter.rs::bip_exclude',
+                      'built_in_functor.rs::next_solution_functor', 'built_in_functor.rs::atoms_match',
+                      'built_in_join.rs::evaluate_join', 'built_in_join.rs::is_punctuation'],
         'oracles': {'s_linked_list.rs::filter': 'c17_filter', 's_linked_list.rs::count_terms': 'c17_count',
                     's_linked_list.rs::get_terms': 'c17_terms', '*': 'c17_filter'},
         'not_covered': [
-            'functor (next_solution_functor / atoms_match) and the string assembly of join (evaluate_join): not yet under contract',
+            'join: Display of a term is the uninterpreted `disp` (R10: format!("{}", term) wrapped); `String += &str` and atom!(out) are wrapped into external functions (R10)',
+            'functor: the prefix test is the uninterpreted str_has_prefix tied to str::starts_with (R11)',
             'termination of the walks through bound tails (exec_allows_no_decreases_clause)',
             "include/exclude: 'unify with the filter term' is the uninterpreted unify_ok, tied to the real unify by the purity assumption",
         ],
